@@ -2,7 +2,8 @@
    Property theorems only; model in Gw/Merge.v, the property's list of incompatibilities
    ([incompatible]) in Gw/MergeCheck.v, proofs in Proofs/MergeProofs.v. *)
 From Coq Require Import String List Bool.
-From GW Require Import Base.Res Base.GoStr Gql.Schema Gw.Merge Gw.MergeCheck Proofs.MergeBasics Proofs.MergeProofs.
+From GW Require Import Base.Res Base.GoStr Gql.Schema Gw.Merge Gw.MergeCheck Proofs.MergeBasics Proofs.MergeProofs
+  Proofs.MergeGroup Proofs.MergeWhole Proofs.MergeDirs Proofs.MergeOrder Proofs.MergeWitness.
 Import ListNotations.
 Open Scope string_scope.
 Open Scope list_scope.
@@ -28,6 +29,25 @@ Print Assumptions C09_incompatible_definitions_rejected.
 Theorem C09_never_panics : forall sources, is_panic (merge_schemas sources) = false.
 Proof. exact merge_schemas_never_panics. Qed.
 Print Assumptions C09_never_panics.
+
+(* Exactly: construction succeeds if and only if every two definitions of one type name and every
+   two definitions of one directive pass all the comparisons mergeSchemas makes for their kind
+   (compat, dcompat: Proofs/MergeGroup.v, Proofs/MergeDirs.v) ... *)
+Theorem C09_construction_succeeds_exactly_on_pairwise_compatible_sources : forall srcs,
+  sources_wfb srcs = true ->
+  is_ok (merge_schemas srcs) = types_ok (flat_map s_types srcs) && dirs_ok (flat_map s_dirs srcs).
+Proof. intros srcs Hw. apply merge_schemas_ok_iff. apply sources_wfb_sound. exact Hw. Qed.
+Print Assumptions C09_construction_succeeds_exactly_on_pairwise_compatible_sources.
+
+(* ... so a failure always has a culprit: two definitions of one name (not a "__" name) that do
+   not pass them.  Construction never fails for another reason. *)
+Theorem C09_every_failure_has_an_incompatible_pair : forall srcs,
+  sources_wfb srcs = true -> is_ok (merge_schemas srcs) = false ->
+  (exists a b, In a (flat_map s_types srcs) /\ In b (flat_map s_types srcs) /\ df_name a = df_name b /\
+               is_internal_name (df_name a) = false /\ compat a b = false) \/
+  (exists a b, In a (flat_map s_dirs srcs) /\ In b (flat_map s_dirs srcs) /\ dd_name a = dd_name b /\ dcompat a b = false).
+Proof. intros srcs Hw. apply merge_failure_has_a_witness. apply sources_wfb_sound. exact Hw. Qed.
+Print Assumptions C09_every_failure_has_an_incompatible_pair.
 
 (* the same for every group of definitions of one name, in terms of the pairwise relation:
    a group merges only if all its members are pairwise "same signature" *)
